@@ -319,6 +319,19 @@ def rule_helpers(ctx, repo):
         r.violated('commitment-index', gi.site, 'commitment search tests %s; reference: at least 38 bytes and the first six equal to the magic' % conds)
     else:
         r.undecided('commitment-index', gi.site, 'commitment search tests %s' % conds)
+    # which match wins: BIP141 takes the LAST output that matches.  A forward scan that returns from inside the loop hands
+    # back the first one (a stale commitment earlier in the coinbase then decides); scanning backwards may return at once.
+    for lp_ in [n for n in ast.walk(gi.node) if isinstance(n, ast.For)]:
+        fwd = not (isinstance(lp_.iter, ast.Call) and norm(lp_.iter.func) == 'reversed') and 'reversed(' not in norm(lp_.iter) and '::-1' not in norm(lp_.iter)
+        inner_ret = [x for x in ast.walk(lp_) if isinstance(x, ast.Return) and x.value is not None]
+        if fwd and inner_ret:
+            r.violated('commitment-index:last-match', common.site_of(gi, inner_ret[0]), 'the forward scan over the coinbase outputs returns at the first output that matches (`%s`); '
+                       'BIP141: if several outputs match, the one with the highest index is the commitment' % norm(inner_ret[0]), sure=True)
+        elif fwd:
+            asg = [x for x in ast.walk(lp_) if isinstance(x, ast.Assign)]
+            r.check(bool(asg), 'commitment-index:last-match', common.site_of(gi, lp_), 'every match overwrites the position: the last one wins', 'no position is recorded in the scan')
+        else:
+            r.undecided('commitment-index:last-match', common.site_of(gi, lp_), 'backward scan: `%s`' % norm(lp_.iter))
     loops = [norm(n.iter) for n in ast.walk(gi.node) if isinstance(n, (ast.For, ast.comprehension))]
     if any(l_ == 'enumerate(self.vtx[0].vout)' for l_ in loops):
         r.ok('commitment-index:coinbase-outputs', gi.site, 'searched in the coinbase outputs, last match wins')
